@@ -122,13 +122,19 @@ Proof.
   induction a as [|b a IH]; simpl; [reflexivity | rewrite IH; reflexivity].
 Qed.
 
+Lemma take_zl_app (a r : bytes) : take_zl (a ++ r) (Z.of_nat (List.length a)) = Some (a, r).
+Proof.
+  induction a as [|b a IH].
+  - destruct r; reflexivity.
+  - cbn [List.length app take_zl].
+    replace (Z.of_nat (S (List.length a)) =? 0) with false by lia.
+    replace (Z.of_nat (S (List.length a)) - 1) with (Z.of_nat (List.length a)) by lia.
+    rewrite IH. reflexivity.
+Qed.
+
 Lemma take_z_app (a r : bytes) : take_z (Z.of_nat (List.length a)) (a ++ r) = Some (a, r).
 Proof.
-  unfold take_z. rewrite app_length.
-  replace ((0 <=? Z.of_nat (List.length a)) &&
-           (Z.of_nat (List.length a) <=? Z.of_nat (List.length a + List.length r))) with true
-    by (symmetry; apply andb_true_intro; split; lia).
-  rewrite Nat2Z.id. apply take_n_app.
+  unfold take_z. replace (Z.of_nat (List.length a) <? 0) with false by lia. apply take_zl_app.
 Qed.
 
 Lemma take_z_app' n (a r : bytes) : n = Z.of_nat (List.length a) -> take_z n (a ++ r) = Some (a, r).
